@@ -23,6 +23,16 @@ Theorem flat_refines_boxed :
 Proof. exact flat_refines_boxed_run. Qed.
 Print Assumptions flat_refines_boxed.
 
+(** The geometry monitor: what verif_geometry() may report in any reachable state (apply to prefixes of
+    [ops] for the intermediate states).  [geom_ok] is the predicate evaluated on the REAL traces. *)
+Theorem flat_geometry_ok :
+  forall (prog : entry -> list pushreq) (n : nat) (ops : list op) (evs : list ev) (fs : list fq),
+  prog_wf prog -> Forall op_wf ops ->
+  run flat_impl prog (init flat_impl n) ops = Ok (evs, fs) ->
+  Forall (fun q => geom_ok (fq_geometry q) = true) fs.
+Proof. exact flat_geom_ok_run. Qed.
+Print Assumptions flat_geometry_ok.
+
 (** The flat queue never stops for a reason of its own: the only errors of the model on any operation
     sequence are arithmetic overflow / Layout failure (excluded under size bounds by
     [flat_push_total]) and misuse of the test API (bad queue index, push onto the executing queue).
@@ -88,11 +98,12 @@ Theorem req_bounds_consumption :
 Proof. exact req_bounds. Qed.
 Print Assumptions req_bounds_consumption.
 
-(** The new allocation of expand_storage (generated): a power of two >= 1 KiB, larger than the old
-    capacity and the requirement, at most twice the larger of them. *)
+(** The new allocation of expand_storage (generated): a power of two >= INITIAL_ALLOCATION, larger than
+    the old capacity and the requirement, at most twice the larger of them. *)
 Theorem expand_size_is_next_pow2 :
   forall cap req2 s, 0 <= cap -> 0 <= req2 -> expand_size cap req2 = Some s ->
-  exists j, 10 <= j /\ s = 2 ^ j /\ cap < s /\ req2 < s /\ s <= Z.max 1024 (2 * Z.max cap req2) /\ s < W64.
+  exists j, 0 <= j /\ s = 2 ^ j /\ INITIAL_ALLOCATION <= s /\ cap < s /\ req2 < s /\
+    s <= Z.max (2 * INITIAL_ALLOCATION) (2 * Z.max cap req2) /\ s < W64.
 Proof. exact expand_size_some. Qed.
 Print Assumptions expand_size_is_next_pow2.
 
